@@ -117,6 +117,7 @@ type vCfg struct {
 	capacity int64
 	reqSized bool
 	init     *vInit // initial storage contents (nil = empty store)
+	block    bool   // block_on_overflow
 }
 
 // an initial store in decoded form (what an earlier run can have left behind, possibly with missing bodies)
@@ -185,7 +186,7 @@ func vNewPQ(c vCfg) *persistentQueue[uint64] {
 		sizer = request.SizeofFunc[uint64](func(id uint64) int64 { return int64(id%3) + 1 })
 	}
 	return newPersistentQueue[uint64](persistentQueueSettings[uint64]{
-		sizer: sizer, capacity: c.capacity, blockOnOverflow: false, signal: pipeline.SignalTraces,
+		sizer: sizer, capacity: c.capacity, blockOnOverflow: c.block, signal: pipeline.SignalTraces,
 		storageID: component.ID{}, encoding: vEnc{}, id: component.NewID(component.MustNewType("x")),
 		telemetry: componenttest.NewNopTelemetrySettings(),
 	}).(*persistentQueue[uint64])
@@ -210,6 +211,7 @@ type vRes struct {
 }
 
 type vIObs struct {
+	parked bool // Start parked for ever in hasMoreSpace.Wait (block_on_overflow)
 	died   bool
 	closes int
 	res    []vRes
@@ -338,6 +340,8 @@ type vHist struct {
 	drains        int
 	skipToBlock   int
 	skippedBodies int
+	parkedStarts  int
+	parkedOffers  int
 }
 
 func vNewHist(c vCfg) *vHist {
@@ -384,6 +388,71 @@ func vRead(pq *persistentQueue[uint64]) (id uint64, d Done, ok bool, crashed boo
 		return x.id, x.d, x.ok, x.crashed, false
 	case <-time.After(5 * time.Second):
 		return 0, nil, false, false, true
+	}
+}
+
+// vParkable runs a call that may wait on hasMoreSpace (block_on_overflow) in a goroutine.  The waiter count of the
+// condition variable is read under pq.mu (the call holds pq.mu except while it waits), so "parked" is observed
+// without timing.  A parked call is released by cancelling its context AFTER the storage client has been declared
+// dead, so that whatever the call does afterwards touches nothing (it ends with the crash sentinel or the context error).
+const (
+	vPkReturned = 0
+	vPkCrashed  = 1
+	vPkParked   = 2
+)
+
+func vParkable(pq *persistentQueue[uint64], cl *vClient, call func(ctx context.Context) error) int {
+	ctx, cancel := context.WithCancel(context.Background())
+	defer cancel()
+	type r struct {
+		crashed bool
+		other   any
+	}
+	ch := make(chan r, 1)
+	go func() {
+		var x r
+		defer func() {
+			if p := recover(); p != nil {
+				if _, is := p.(vCrash); is {
+					x.crashed = true
+				} else {
+					x.other = p
+				}
+			}
+			ch <- x
+		}()
+		_ = call(ctx)
+	}()
+	deadline := time.Now().Add(60 * time.Second)
+	for {
+		select {
+		case x := <-ch:
+			if x.other != nil {
+				panic(x.other)
+			}
+			if x.crashed {
+				return vPkCrashed
+			}
+			return vPkReturned
+		default:
+		}
+		pq.mu.Lock()
+		waiting := pq.hasMoreSpace.waiting
+		pq.mu.Unlock()
+		if waiting > 0 || time.Now().After(deadline) {
+			wasDead := cl.dead
+			cl.dead = true
+			cancel()
+			x := <-ch
+			if !wasDead && !x.crashed {
+				cl.dead = false // the call returned with the context error without touching the storage (Offer)
+			}
+			if x.other != nil {
+				panic(x.other)
+			}
+			return vPkParked
+		}
+		time.Sleep(50 * time.Microsecond)
 	}
 }
 
@@ -449,7 +518,17 @@ func (h *vHist) run(inc vInc) (hung bool) {
 			}
 		}()
 		pq = vNewPQ(h.cfg)
-		pq.initClient(context.Background(), cl)
+		if h.cfg.block {
+			switch vParkable(pq, cl, func(ctx context.Context) error { pq.initClient(ctx, cl); return nil }) {
+			case vPkCrashed:
+				panic(vCrash{})
+			case vPkParked:
+				ob.parked = true
+				return
+			}
+		} else {
+			pq.initClient(context.Background(), cl)
+		}
 		recovered = true
 		ob.recov = cl.calls
 		if n := len(pq.currentlyDispatchedItems); n > 0 {
@@ -461,7 +540,17 @@ func (h *vHist) run(inc vInc) (hung bool) {
 			}
 			switch o.tag {
 			case 0:
-				err := pq.Offer(context.Background(), o.a)
+				var err error
+				if h.cfg.block {
+					switch vParkable(pq, cl, func(ctx context.Context) error { err = pq.Offer(ctx, o.a); return err }) {
+					case vPkCrashed:
+						panic(vCrash{})
+					case vPkParked:
+						h.parkedOffers++ // the call waited for space; its context was cancelled: err is the context error
+					}
+				} else {
+					err = pq.Offer(context.Background(), o.a)
+				}
 				acc := uint64(0)
 				if err == nil {
 					acc = 1
@@ -590,8 +679,16 @@ func (h *vHist) run(inc vInc) (hung bool) {
 	if ob.died {
 		ob.calls = cl.calls - 1
 		h.deaths++
-	} else {
+	} else if !ob.parked {
 		ob.closes = cl.closes
+	}
+	if ob.parked {
+		if h.parkedStarts == 0 {
+			h.fails = append(h.fails, vFail{"start-blocks-in-recovery",
+				fmt.Sprintf("incarnation=%d block_on_overflow=true capacity=%d: Start waits for queue space in retrieveAndEnqueueNotDispatchedReqs -> putInternal -> hasMoreSpace.Wait after %d storage calls; no consumer is running yet, nothing can free space",
+					len(h.incs), h.cfg.capacity, cl.calls)})
+		}
+		h.parkedStarts++
 	}
 	if !recovered {
 		ob.recov = ob.calls
@@ -656,12 +753,12 @@ func (h *vHist) term() string {
 		for j, r := range ob.res {
 			rs[j] = "(" + vNat(r.tag) + ", " + vN(r.a) + ", " + vN(r.b) + ", " + vZ(r.size) + ")"
 		}
-		obs[i] = "(" + vBool(ob.died) + ", " + vNat(ob.closes) + ", " + vList(rs) + ", " + ob.store + ")"
+		obs[i] = "(" + vBool(ob.died) + ", " + vBool(ob.parked) + ", " + vNat(ob.closes) + ", " + vList(rs) + ", " + ob.store + ")"
 	}
 	if h.cfg.init != nil {
-		return "CHistFrom " + vZ(h.cfg.capacity) + " " + vBool(h.cfg.reqSized) + " " + h.cfg.init.term() + " " + vList(incs) + " " + vList(obs)
+		return "CHistFrom " + vZ(h.cfg.capacity) + " " + vBool(h.cfg.reqSized) + " " + vBool(h.cfg.block) + " " + h.cfg.init.term() + " " + vList(incs) + " " + vList(obs)
 	}
-	return "CHist " + vZ(h.cfg.capacity) + " " + vBool(h.cfg.reqSized) + " " + vList(incs) + " " + vList(obs)
+	return "CHist " + vZ(h.cfg.capacity) + " " + vBool(h.cfg.reqSized) + " " + vBool(h.cfg.block) + " " + vList(incs) + " " + vList(obs)
 }
 
 // replay a list of incarnations from an empty store, then drain
@@ -698,6 +795,12 @@ func vRunHistory(c vCfg, incs []vInc, drain bool) (*vHist, bool) {
 			}
 			if h.run(vInc{sc, -1}) {
 				return h, true
+			}
+			if h.obs[len(h.obs)-1].parked {
+				// Start never completes (reported once as start-blocks-in-recovery): every later start parks the
+				// same way on the unchanged store, nothing more will ever be delivered; the oracles below would
+				// only repeat that
+				return h, false
 			}
 			h.drains++
 		}
@@ -806,6 +909,15 @@ func vEmit(out *vOut, h *vHist) {
 	if h.refusedReputs > 0 {
 		out.Stat("histories_with_refused_reput_in_recovery", 1)
 	}
+	if h.parkedStarts > 0 {
+		out.Stat("histories_with_start_parked_in_recovery", 1)
+	}
+	if h.parkedOffers > 0 {
+		out.Stat("histories_with_offer_waiting_for_space", 1)
+	}
+	if h.cfg.block {
+		out.Stat("histories_block_on_overflow", 1)
+	}
 	if h.skippedBodies > 0 {
 		out.Stat("histories_with_read_skipping_missing_bodies", 1)
 	}
@@ -896,6 +1008,11 @@ func TestVerifC01(t *testing.T) {
 			}{vCfg{capacity: 100, reqSized: false}, []vInc{{sc, -1}, {[]vOp{rd, off(13), {2, 0, 1}}, b}}})
 		}
 	}
+	// guarded regression case of finding C01-RECOVERY-BLOCKS (block_on_overflow, request 1 in flight, queue refilled)
+	fixed = append(fixed, struct {
+		c    vCfg
+		incs []vInc
+	}{vCfg{capacity: 2, reqSized: true, block: true}, []vInc{warm, {[]vOp{off(1), rd, off(2), off(3), off(4)}, -1}}})
 	for _, f := range fixed {
 		h, _ := vRunHistory(f.c, f.incs, true)
 		vEmit(out, h)
@@ -909,9 +1026,10 @@ func TestVerifC01(t *testing.T) {
 		levels = 3
 		maxLen = 20
 	}
+	smallCaps := 0
 	for s := 0; s < nscripts; s++ {
 		c := vCfg{capacity: 100, reqSized: true}
-		if rng.Intn(4) == 0 {
+		if rng.Intn(3) == 0 {
 			c.capacity = int64(1 + rng.Intn(4))
 		}
 		if rng.Intn(6) == 0 {
@@ -920,8 +1038,15 @@ func TestVerifC01(t *testing.T) {
 				c.capacity *= 2
 			}
 		}
+		if c.capacity < 100 {
+			smallCaps++
+		}
+		if c.capacity < 100 && smallCaps%3 == 2 {
+			c.block = true // block_on_overflow: Offer waits instead of failing, and so does the re-put of start-up recovery
+		}
 		out.Stat(fmt.Sprintf("cfg_capacity_%d", c.capacity), 1)
 		out.Stat(fmt.Sprintf("cfg_reqsized_%v", c.reqSized), 1)
+		out.Stat(fmt.Sprintf("cfg_block_%v", c.block), 1)
 		var prefix []vInc
 		if rng.Intn(4) != 0 {
 			// warm store (the read index key exists); otherwise the history starts cold (write index without read index)
@@ -998,6 +1123,9 @@ func TestVerifC01(t *testing.T) {
 	// (1c) the Done of a request exported in several pieces (refCountDone), also when a flush carries pieces of
 	// two requests (multiDone): piece outcomes in a random completion order, half of the time from concurrent goroutines
 	vRunDoneCases(out, rng)
+
+	// (1d) itemDispatchingFinish with storage errors (the error-only fallback path): a client that fails chosen calls
+	vRunFinishErrorCases(out, rng)
 
 	// (2) codecs
 	for i := 0; i < vBudget(80, 10); i++ {
@@ -1173,6 +1301,136 @@ func vRunDoneCases(out *vOut, rng *vRand) {
 			}
 			if !x.seen[2] && cls == 2 || (x.seen[1] || x.seen[2]) && cls == 0 {
 				out.Oracle("split-handoff-wrong-class", term, fmt.Sprintf("request %s pieces=%v class=%d", x.name, x.pieces, cls))
+			}
+		}
+	}
+}
+
+// ---- itemDispatchingFinish under storage errors ----------------------------------------------------------
+// a client whose chosen calls FAIL (return an error, apply nothing); the others are applied
+type vFailClient struct {
+	m     map[string][]byte
+	calls int
+	fail  map[int]bool // 1-based call numbers that fail
+}
+
+var vErrStorage = errors.New("storage failure")
+
+func (c *vFailClient) do(ops ...*storage.Operation) error {
+	c.calls++
+	if c.fail[c.calls] {
+		return vErrStorage
+	}
+	for _, op := range ops {
+		switch op.Type {
+		case storage.Get:
+			op.Value = c.m[op.Key]
+		case storage.Set:
+			c.m[op.Key] = append([]byte{}, op.Value...)
+		case storage.Delete:
+			delete(c.m, op.Key)
+		}
+	}
+	return nil
+}
+func (c *vFailClient) Get(_ context.Context, k string) ([]byte, error) {
+	op := storage.GetOperation(k)
+	err := c.do(op)
+	return op.Value, err
+}
+func (c *vFailClient) Set(_ context.Context, k string, v []byte) error {
+	return c.do(storage.SetOperation(k, v))
+}
+func (c *vFailClient) Delete(_ context.Context, k string) error { return c.do(storage.DeleteOperation(k)) }
+func (c *vFailClient) Batch(_ context.Context, ops ...*storage.Operation) error {
+	return c.do(ops...)
+}
+func (c *vFailClient) Close(context.Context) error { return nil }
+
+func vRunFinishErrorCases(out *vOut, rng *vRand) {
+	n := vBudget(48, 6)
+	for i := 0; i < n; i++ {
+		f := [3]bool{i&1 != 0, i&2 != 0, i&4 != 0} // all 8 failure patterns, several stores each
+		// a store with ri, wi, a dispatched list and bodies for some of the listed indexes
+		ri := uint64(3 + rng.Intn(4))
+		in := &vInit{ri: int64(ri), wi: int64(ri + uint64(rng.Intn(3))), si: -1, diSet: true}
+		var cdi []uint64
+		for x := uint64(0); x < ri; x++ {
+			if rng.Intn(2) == 0 {
+				cdi = append(cdi, x)
+				in.di = append(in.di, x)
+				if rng.Intn(4) != 0 {
+					in.items = append(in.items, [2]uint64{x, 2000 + x})
+				}
+			}
+		}
+		if rng.Intn(4) == 0 && len(in.di) > 0 {
+			in.di = in.di[:len(in.di)-1] // the stored list may lag behind the in-memory one
+		}
+		for x := ri; x < uint64(in.wi); x++ {
+			in.items = append(in.items, [2]uint64{x, 2000 + x})
+		}
+		index := uint64(rng.Intn(int(ri)))
+		if len(cdi) > 0 && rng.Intn(4) != 0 {
+			index = cdi[rng.Intn(len(cdi))]
+		}
+		cl := &vFailClient{m: map[string][]byte{}, fail: map[int]bool{}}
+		in.fill(cl.m)
+		// calls made by itemDispatchingFinish: 1 combined; if it fails 2 delete-only; if that succeeds 3 list-only
+		cl.fail[1] = f[0]
+		cl.fail[2] = f[1]
+		cl.fail[3] = f[2]
+		pq := vNewPQ(vCfg{capacity: 100, reqSized: true})
+		pq.client = cl
+		pq.currentlyDispatchedItems = append([]uint64{}, cdi...)
+		pq.mu.Lock()
+		err := pq.itemDispatchingFinish(context.Background(), index)
+		pq.mu.Unlock()
+		cls := 0
+		switch {
+		case err == nil:
+		case strings.Contains(err.Error(), "failed deleting item"):
+			cls = 1
+		case strings.Contains(err.Error(), "failed updating currently dispatched items"):
+			cls = 2
+		default:
+			cls = 9
+		}
+		st, _ := vStoreTerm(cl.m)
+		c0 := make([]string, len(cdi))
+		for k, x := range cdi {
+			c0[k] = vN(x)
+		}
+		c1 := make([]string, len(pq.currentlyDispatchedItems))
+		for k, x := range pq.currentlyDispatchedItems {
+			c1[k] = vN(x)
+		}
+		term := "CFin " + vBool(f[0]) + " " + vBool(f[1]) + " " + vBool(f[2]) + " " + in.term() + " " + vList(c0) + " " + vN(index) + " " + st + " " + vList(c1) + " " + vNat(cls)
+		out.Case(true, term)
+		out.Stat(fmt.Sprintf("finish_errors_class_%d", cls), 1)
+		// direct oracle: every body other than the finished index is still stored; every index that was listed with a
+		// body (other than the finished one) is still listed
+		after := vViewOf(cl.m)
+		for _, it := range in.items {
+			if it[0] == index {
+				continue
+			}
+			if _, ok := cl.m[strconv.FormatUint(it[0], 10)]; !ok {
+				out.Oracle("finish-with-storage-errors-loses-a-body", term, fmt.Sprintf("index %d", it[0]))
+			}
+			listedBefore, listedAfter := false, false
+			for _, x := range in.di {
+				listedBefore = listedBefore || x == it[0]
+			}
+			for _, x := range after.di {
+				listedAfter = listedAfter || x == it[0]
+			}
+			inMem := false
+			for _, x := range cdi {
+				inMem = inMem || x == it[0]
+			}
+			if listedBefore && inMem && !listedAfter {
+				out.Oracle("finish-with-storage-errors-unlists-a-dispatched-request", term, fmt.Sprintf("index %d", it[0]))
 			}
 		}
 	}
